@@ -157,6 +157,7 @@ fn new(dword: DoubleWord, radix: Digit) -> PreparedDword
             prepared.start_index as int == mx - n - __i1 as int,
             0 <= (p1 as int) < ipow(rx, n - __i1 as int),
             dw_state(dw, rx, (p2 as int) * ipow(rx, n - __i1 as int) + p1 as int, prepared.digits@, prepared.start_index as int),
+            __i1 == __n1 ==> dw_state(dw, rx, p2 as int, prepared.digits@, prepared.start_index as int),
           ensures
             prepared.start_index as int <= mx - n,
             dw_state(dw, rx, p2 as int, prepared.digits@, prepared.start_index as int),
@@ -186,6 +187,8 @@ fn new(dword: DoubleWord, radix: Digit) -> PreparedDword
                 if __i1 == __n1 {
                     assert(ipow(rx, 0) == 1);
                     assert(a * 1 == a) by (nonlinear_arith);
+                    assert(pn == 0);
+                    assert(dw_state(dw, rx, p2 as int, prepared.digits@, prepared.start_index as int));
                 }
             } @*/
         }
